@@ -33,7 +33,7 @@ func (c09) Meta() fw.Meta {
 			"the oracle uses the clock the command printed; the symmetry relation is only judged when both runs printed the same clock",
 			"a glob pattern that matches nothing on the source side is not a 'missing file' and is not judged here (C16 covers it)",
 		},
-		Obligations: []string{"diff_runs", "clean_verdicts", "diff_verdicts", "records_checked", "self_diff", "identical_files", "ulp_apart", "signed_zero_equal", "nan_vs_nan_equal", "nan_vs_value", "missing_src", "missing_dest", "layout_mismatch_error", "symmetry_checked", "glob_one_differs", "glob_none_differs", "single_archive_selection", "remote_side_runs", "text_out_file_runs", "never_written_side", "symlinked_source_in_glob", "unclean_base_spelling", "remote_glob_runs", "both_sides_remote_runs", "both_sides_remote_long_archives", "runs_with_concurrent_clients", "concurrent_noise_requests_served", "server_socket_writes_delayed", "file_names_needing_query_escaping", "glob_with_mismatch_and_difference"},
+		Obligations: []string{"diff_runs", "clean_verdicts", "diff_verdicts", "records_checked", "self_diff", "identical_files", "ulp_apart", "signed_zero_equal", "nan_vs_nan_equal", "nan_vs_value", "missing_src", "missing_dest", "layout_mismatch_error", "symmetry_checked", "glob_one_differs", "glob_none_differs", "single_archive_selection", "remote_side_runs", "text_out_file_runs", "never_written_side", "symlinked_source_in_glob", "unclean_base_spelling", "remote_glob_runs", "both_sides_remote_runs", "both_sides_remote_long_archives", "runs_with_concurrent_clients", "concurrent_noise_requests_served", "server_socket_writes_delayed", "file_names_needing_query_escaping", "glob_with_mismatch_and_difference", "glob_with_a_missing_destination_base"},
 		Workers:     12,
 	}
 }
@@ -182,6 +182,7 @@ func (c09) Run(c *fw.Ctx) {
 	if sc.From < 1 && sc.Window != "default" {
 		sc.From = 1
 	}
+	missingBase := false
 	nfiles := 1
 	differing := map[int]bool{0: true}
 	if sc.Glob {
@@ -287,11 +288,19 @@ func (c09) Run(c *fw.Ctx) {
 			os.WriteFile(bp, readFileOrNil(ap), 0644)
 			os.Remove(ap)
 		case "missing-dest":
+			if sc.Glob && c.Index%2 == 0 {
+				// not only the files: the whole destination base directory does not exist
+				missingBase = true
+			}
 		case "layout-mismatch":
 			other := model.Layout{Archs: append([]model.Arch(nil), l.Archs...), Method: l.Method, Xff: l.Xff}
 			other.Archs[len(other.Archs)-1].Points += 1 + uint32(r.Intn(4))
 			writeFixture(bp, other, genContent(r, other, now, 0.5), now)
 		}
+	}
+	if missingBase {
+		os.RemoveAll(bBase)
+		c.Count("glob_with_a_missing_destination_base", 1)
 	}
 	mkArgs := func(srcBase, destBase, pat string) []string {
 		args := []string{"diff", "-src-base", srcBase, "-src", pat, "-dest-base", destBase, "-archive", strconv.Itoa(sc.Archive)}
